@@ -27,13 +27,13 @@ type verifSub struct {
 }
 
 type verifSched struct {
-	w       *vWorld
-	l       *Log
-	subs    []*verifSub
-	actions int  // remaining interleaved actions
-	inHook  bool
-	maxSubs int
-	lc      int
+	w          *vWorld
+	l          *Log
+	subs       []*verifSub
+	actions    int // remaining interleaved actions
+	inHook     bool
+	maxSubs    int
+	lc         int
 	pauseYield bool
 	distinct   bool
 }
@@ -205,6 +205,56 @@ func VerifC02(n0, faults, actions, cacheLoss, dups int) {
 		// (a round that failed after the lock commit leaves sequenced but unacknowledged leaves behind,
 		// which a resubmission legitimately duplicates)
 		verifAssert(final.n == int64(n0+distinct), "the number of new leaves differs from the number of distinct acknowledged submissions")
+	}
+	w.auditPrefix()
+	verifReach("done")
+}
+
+// VerifC07SubmitDuringRound: a submission with a new issuer (whose upload goes to the backend before
+// the pool is touched) is interleaved with a WHOLE sequencing round: at any storage operation of
+// addLeafToPool the sequencer may rotate and sequence the current pool (which holds another entry).
+// Afterwards: one more round; every acknowledgement names an index that holds that entry, different
+// entries have different indexes, a resubmission gets the same (index, timestamp), and the tree grew
+// by exactly the number of distinct admitted submissions.
+func VerifC07SubmitDuringRound(n0 int) {
+	w := newWorld(0, 0)
+	w.clockMode = 1
+	l, _ := w.bootstrap(n0)
+	ctx := context.Background()
+	s := &verifSched{w: w, l: l, maxSubs: 8, lc: 3, distinct: true}
+	z := s.submit("z")
+	inSubmit, ran, inHook := true, false, false
+	w.onStep = func(inst *vInstance, op, key string) {
+		if !inSubmit || ran || inHook || op == "yield" {
+			return
+		}
+		if verifNondetBool("round-now") {
+			ran, inHook = true, true
+			verifTrace("--- a sequencing round runs during the submission")
+			verifReach("interleaved")
+			verifAssert(l.sequence(ctx) == nil, "a fault-free round fails")
+			inHook = false
+		}
+	}
+	x := &verifSub{tag: "x", e: verifPending("x", 9, 1, false)}
+	x.f, x.src = l.addLeafToPool(ctx, x.e, false)
+	s.subs = append(s.subs, x)
+	inSubmit = false
+	w.onStep = nil
+	verifAssert(l.sequence(ctx) == nil, "a fault-free round fails")
+	for _, sub := range []*verifSub{z, x} {
+		s.poll(sub, "after the rounds")
+		verifAssert(sub.done && sub.err == nil, "a submission admitted to a pool is not acknowledged after its pool was sequenced")
+	}
+	re := &verifSub{tag: "resubmit-x", e: x.e}
+	re.f, re.src = l.addLeafToPool(ctx, re.e, false)
+	s.subs = append(s.subs, re)
+	verifAssert(l.sequence(ctx) == nil, "a fault-free round fails")
+	s.poll(re, "after the resubmission")
+	verifAssert(re.done && re.err == nil, "a resubmission is not acknowledged")
+	s.checkDedup(true)
+	if final := w.published(); final != nil {
+		verifAssert(final.n == int64(n0+2), "the number of new leaves differs from the number of distinct acknowledged submissions")
 	}
 	w.auditPrefix()
 	verifReach("done")
